@@ -41,9 +41,15 @@
    count is not 0.  prop=C14: OutOfMemory where the model's allocator hands out a slot; `err oom` in the retry
    phase (retry_at).  Everything else kind=corr.
 
-   Out of the model's scope (Core.v has no apply cache): a clone of an edge that nobody owns or can borrow
-   (the weak value edge of an apply-cache hit revives a dead node).  The replay of the case stops there
-   (statistic left_scope_cache_revival), later lines are not judged. *)
+   An explicit gc() directly after a snapshot (sequential part) is also compared with the model's own whole
+   collection [Model.kcollect] from the state at that snapshot: same surviving nodes, same counts, same number
+   of removed nodes as gc() returns.
+
+   Outside Core.v (it has no apply cache): a clone of an edge that nobody owns or can borrow -- the weak value
+   edge of an apply-cache hit revives a dead node.  The driver emulates it with actions the model has: the node
+   is obtained again through [KGoi] of its own shape (found), its child edges are cloned first (see [revive]);
+   statistic cache_revivals_emulated.  If even that is not enabled the replay of the case stops
+   (left_scope_cache_revival), later lines are not judged. *)
 open Conv
 
 let starts_with s p = String.length s >= String.length p && String.sub s 0 (String.length p) = p
@@ -149,6 +155,7 @@ let () =
       let returned : (int, unit) Hashtbl.t = Hashtbl.create 16 in
       let pend_free : (int, string) Hashtbl.t = Hashtbl.create 16 in     (* thread -> store of its non-local free_slot in progress *)
       let opno = ref 0 in
+      let ks_snap : Model.kst option ref = ref None in                   (* the model state at the snapshot directly before the current operation *)
       let stop (s : store) = if s.sync then (s.sync <- false; stat "out_of_sync" 1) in
       let desync i (s : store) msg = if s.sync then (stop s; corr i msg) in
       let scope_left i (s : store) what =
@@ -565,13 +572,32 @@ let () =
                       (match !primary with
                        | Some s when s.sync ->
                          if Hashtbl.fold (fun _ l acc -> acc || l <> []) absorb false then desync i s "child edge releases of an action are still due at the snapshot"
-                         else compare_snapshot i s nodes
+                         else (compare_snapshot i s nodes; if s.sync then ks_snap := Some s.ks)
                        | _ -> ())
                     with Failure m -> corr i ("driver: " ^ m))
-                 | "PAR" :: _ -> stat "par_blocks" 1; (match !primary with Some s when s.sync -> stat "par_blocks_followed" 1 | _ -> ())
+                 | [ "GC" ] when (match !primary, !ks_snap with Some s, Some _ -> s.sync && s.nth > 0 | _ -> false) ->
+                   (* an explicit gc() directly after a snapshot (sequential part): the replayed removals against the model's
+                      own whole collection [kcollect] (theorems C14_core_collect_proj, C14_core_retry_after_gc) from the
+                      state at that snapshot: the same surviving nodes with the same counts, the same number removed *)
+                   (match !primary, !ks_snap with
+                    | Some s, Some ks0 ->
+                      stat "kcollect_compared" 1;
+                      let tbl (ks : Model.kst) = List.sort compare (List.map (fun (id, nd) -> (int_of_pos id, int_of_nat nd.Model.cl, show_ch nd.Model.cch, int_of_n nd.Model.crc)) ks.Model.k_cn) in
+                      let kc = Model.kcollect k !terms (nat !nl) s.cfg (nat 0) ks0 in
+                      stat "kcollect_removed" (List.length ks0.Model.k_cn - List.length kc.Model.k_cn);
+                      if tbl kc <> tbl s.ks then
+                        corr i (Printf.sprintf "gc(): the model's whole collection kcollect leaves %d nodes, the replayed removals %d (or the counts differ)" (List.length kc.Model.k_cn) (List.length s.ks.Model.k_cn))
+                      else (match split_ws res with
+                          | [ "collected"; n ] when int_of_string n <> List.length ks0.Model.k_cn - List.length kc.Model.k_cn ->
+                            corr i (Printf.sprintf "gc() returned %s, the model's collection removes %d nodes" n (List.length ks0.Model.k_cn - List.length kc.Model.k_cn))
+                          | _ -> ())
+                    | _ -> ());
+                   ks_snap := None; incr opno
+                 | "PAR" :: _ -> ks_snap := None; stat "par_blocks" 1; (match !primary with Some s when s.sync -> stat "par_blocks_followed" 1 | _ -> ())
                  | "ENDPAR" :: _ -> ()
                  | tok :: _ when String.length tok > 0 && tok.[0] = 'T' && String.length tok <= 3 && String.length tok >= 2 && tok.[1] >= '0' && tok.[1] <= '9' -> ()
                  | _ ->
+                   ks_snap := None;
                    if retry_at >= 0 && !opno >= retry_at && starts_with res "err oom" then
                      prop i "C14" (Printf.sprintf "retry after drop + gc: [%s] failed with out-of-memory again (capacity is at least the measured need)" ops);
                    incr opno)))
